@@ -119,6 +119,10 @@ struct Rig {
     block: bool,
     /// remote may reset a substream twice / after it was already reset (rare histories)
     hostile_resets: bool,
+    /// the remote reset a substream that was already reset (by it, or locally for overflow): known trigger of F3
+    redundant_reset_seen: bool,
+    /// the application dropped the substream that was blocking reads (Block mode): known trigger of F2
+    dropped_blocking: bool,
     reset_sent: std::collections::BTreeSet<Key>,
     streams: BTreeMap<Key, MS>,
     next_inbound_id: u64,
@@ -162,6 +166,8 @@ impl Rig {
             b,
             block,
             hostile_resets: false,
+            redundant_reset_seen: false,
+            dropped_blocking: false,
             reset_sent: Default::default(),
             streams: BTreeMap::new(),
             next_inbound_id: 0,
@@ -176,7 +182,16 @@ impl Rig {
     fn viol(&mut self, sig: &str, what: String) {
         // only the first violation of a history is reported: afterwards model and muxer have diverged
         if self.violations.is_empty() {
-            self.violations.push((sig.to_string(), what));
+            // the two known triggers get their own signatures so that an unrelated regression with the same
+            // symptom is not mistaken for them
+            let sig = if self.dropped_blocking && sig == "connection-stalled-frames-never-pulled" {
+                format!("{sig}-after-drop-of-blocking-substream")
+            } else if self.redundant_reset_seen && (sig == "substreams-in-use-exceed-max" || sig == "connection-stalled-frames-never-pulled") {
+                format!("{sig}-after-redundant-reset")
+            } else {
+                sig.to_string()
+            };
+            self.violations.push((sig, what));
         }
     }
     fn in_use(&self) -> usize {
@@ -244,6 +259,9 @@ impl Rig {
             }
             _ => {
                 if let Some(s) = self.streams.get_mut(&key) {
+                    if s.admitted && !s.dropped && (s.remote_reset || s.overflow_cap.is_some()) {
+                        self.redundant_reset_seen = true;
+                    }
                     s.remote_reset = true;
                 }
             }
@@ -461,7 +479,11 @@ impl Rig {
     fn drop_handle(&mut self, h: usize) {
         let Some(key) = self.handles[h].key else { return };
         if self.handles[h].sub.take().is_some() {
-            self.streams.get_mut(&key).unwrap().dropped = true;
+            let st = self.streams.get_mut(&key).unwrap();
+            if self.block && st.pulled.len().saturating_sub(st.delivered.len()) >= self.b + 1 {
+                self.dropped_blocking = true;
+            }
+            st.dropped = true;
             self.log.push(format!("drop {key:?}"));
         }
         self.after_poll(None, None);
